@@ -84,6 +84,7 @@ type Lemma struct {
 	Src      string
 	Axiom    bool // assumed, listed in trusted base
 	DataFact bool // a Go boolean expression over package-level values, discharged by executing it
+	NoAssume bool // datacheck: executed on every run, but not handed to the solver as a fact
 	Uses     []string
 	Pkg      string
 	Props    []string
@@ -99,7 +100,7 @@ type Specs struct {
 	Files     []string
 }
 
-var kwRe = regexp.MustCompile(`^(func|spec|lemma|axiom|datafact|requires|ensures|loop|pure|trusted|inline|byexec|transparent|frozen|onappend|trustedpost|allocs|assigns|reads|props|fresh|nosafety|uses|hint|local)\b`)
+var kwRe = regexp.MustCompile(`^(func|spec|lemma|axiom|datafact|datacheck|requires|ensures|loop|pure|trusted|inline|byexec|transparent|frozen|onappend|trustedpost|allocs|assigns|reads|props|fresh|nosafety|uses|hint|local)\b`)
 
 func LoadSpecs(files []string) (*Specs, error) {
 	sp := &Specs{Contracts: map[string]*Contract{}, SpecFns: map[string]*SpecFn{}, Lemmas: map[string]*Lemma{}}
@@ -186,7 +187,7 @@ func (sp *Specs) loadFile(path string) error {
 			sp.SpecFns[sf.Name] = sf
 			cur = nil
 			curSpec = sf
-		case "lemma", "axiom", "datafact":
+		case "lemma", "axiom", "datafact", "datacheck":
 			i := strings.Index(rest, ":")
 			if i < 0 {
 				return fail("lemma needs 'name: formula'")
@@ -200,7 +201,7 @@ func (sp *Specs) loadFile(path string) error {
 				}
 			}
 			head := strings.Fields(headStr)
-			lm := &Lemma{Name: head[0], Vars: lparams, VTypes: ltys, Axiom: kw == "axiom", DataFact: kw == "datafact", Src: strings.TrimSpace(rest[i+1:]), File: path, Line: rl.line}
+			lm := &Lemma{Name: head[0], Vars: lparams, VTypes: ltys, Axiom: kw == "axiom", DataFact: kw == "datafact" || kw == "datacheck", NoAssume: kw == "datacheck", Src: strings.TrimSpace(rest[i+1:]), File: path, Line: rl.line}
 			for _, h := range head[1:] {
 				if strings.HasPrefix(h, "uses=") {
 					lm.Uses = strings.Split(h[5:], ",")
